@@ -75,3 +75,45 @@ def build_and_run(name, code, extra=(), timeout=120):
 def parallel(fn, items, workers=16):
     with concurrent.futures.ThreadPoolExecutor(max_workers=workers) as ex:
         return list(ex.map(fn, items))
+
+
+def check_functions(name, prelude, bodies, extra=()):
+    """type- and borrow-check many probe bodies at once, each as its own function; returns (per-body list of error codes,
+    list of diagnostics that could not be attributed to a body)"""
+    probe_env()
+    lines = prelude.rstrip("\n").split("\n")
+    ranges = []
+    for i, b in enumerate(bodies):
+        start = len(lines) + 1
+        lines.append(f"fn probe_{i}() {{")
+        lines += b.rstrip("\n").split("\n")
+        lines.append("}")
+        ranges.append((start, len(lines)))
+    lines.append("fn main() {}")
+    src = os.path.join(PROBE_DIR, name + ".rs")
+    open(src, "w").write("\n".join(lines) + "\n")
+    rc, err = _rustc(src, os.path.join(PROBE_DIR, name), "metadata", list(extra) + ["--error-format=json"])
+    per = [[] for _ in bodies]
+    stray = []
+    for l in err.splitlines():
+        try:
+            d = json.loads(l)
+        except Exception:
+            continue
+        if d.get("level") != "error": continue
+        code = (d.get("code") or {}).get("code") or "error"
+        prim = [s for s in d.get("spans", []) if s.get("is_primary")] or d.get("spans", [])
+        placed = False
+        for s in prim:
+            # a span inside a macro expansion points into the prelude; follow the expansion to the call site
+            ln = s.get("line_start")
+            e = s
+            while e.get("expansion") and not any(a <= ln <= b for a, b in ranges):
+                e = e["expansion"]["span"]; ln = e.get("line_start")
+            for i, (a, b) in enumerate(ranges):
+                if a <= ln <= b:
+                    per[i].append(code); placed = True; break
+            if placed: break
+        if not placed and "aborting due to" not in d.get("message", ""):
+            stray.append(f"{code}: {d.get('message', '')[:200]}")
+    return per, stray
